@@ -554,6 +554,81 @@ theorem next_progress (inp : Input) (allowRegex : Bool) (s0 : LState) (t : Token
                 simpa [n2] using this
 
 
+/-- a token other than EOF is only produced when input is left -/
+theorem next_noneof_lt (inp : Input) (allowRegex : Bool) (s0 : LState) (t : Token) (s' : LState)
+    (h : next inp allowRegex s0 = .ok (t, s')) (hne : t.type ≠ .eof) : s0.current < inp.size := by
+  have hge0 := acceptAll_ge inp isWhitespace s0.current s0 (Nat.le_refl _)
+  unfold next at h
+  simp only [] at h
+  generalize hs : ignore (acceptAll inp isWhitespace s0).2 = s at h
+  have hsc : s.current = (acceptAll inp isWhitespace s0).2.current := by rw [← hs]; rfl
+  obtain ⟨n1, _, _⟩ := nextRune_at inp s
+  by_cases heof : ((nextRune inp s).1 == eofRune) = true
+  · simp only [heof, if_true] at h
+    injection h with e; injection e with e1 _
+    rw [← e1] at hne; exact absurd rfl hne
+  · have : runeAt inp s.current ≠ eofRune := by rw [← n1]; simpa using heof
+    unfold runeAt at this
+    by_cases hc : s.current ≥ inp.size
+    · simp [hc] at this
+    · omega
+
+/-- lex the whole input (never asking for a regex): tokens up to EOF, a lexical error, or `none`
+    when the step budget runs out -/
+def lexAll (inp : Input) : Nat → LState → Option (Except PErr (List Token))
+  | 0, _ => none
+  | n + 1, s =>
+    match next inp false s with
+    | .error e => some (.error e)
+    | .ok (t, s') =>
+      if t.type == .eof then some (.ok [t])
+      else match lexAll inp n s' with
+        | some (.ok ts) => some (.ok (t :: ts))
+        | r => r
+
+/-- **Lexing terminates.**  From any state, |remaining input| + 1 steps are enough to reach EOF or a
+    lexical error: the budget is never the reason to stop, and there are at most |input| tokens before EOF. -/
+theorem lexAll_terminates (inp : Input) (n : Nat) (s : LState) (h : inp.size - s.current < n) :
+    (lexAll inp n s).isSome = true ∧
+    (∀ ts, lexAll inp n s = some (.ok ts) → ts.length ≤ inp.size - s.current + 1) := by
+  induction n generalizing s with
+  | zero => omega
+  | succ k ih =>
+    unfold lexAll
+    cases hn : next inp false s with
+    | error e => simp
+    | ok r =>
+      obtain ⟨t, s'⟩ := r
+      simp only []
+      by_cases he : (t.type == Tok.eof) = true
+      · simp [he]
+      · simp only [he, Bool.false_eq_true, if_false]
+        have hne : t.type ≠ .eof := by simpa using he
+        have hp := next_progress inp false s t s' hn hne
+        have hlt := next_noneof_lt inp false s t s' hn hne
+        by_cases hsz : s'.current ≤ inp.size
+        · obtain ⟨i1, i2⟩ := ih s' (by omega)
+          cases hl : lexAll inp k s' with
+          | none => rw [hl] at i1; simp at i1
+          | some r =>
+            cases r with
+            | error e => simp
+            | ok ts =>
+              have := i2 ts hl
+              simp
+              omega
+        · obtain ⟨i1, i2⟩ := ih s' (by omega)
+          cases hl : lexAll inp k s' with
+          | none => rw [hl] at i1; simp at i1
+          | some r =>
+            cases r with
+            | error e => simp
+            | ok ts =>
+              have := i2 ts hl
+              simp
+              omega
+
+
 /-! ### signatures and escapes are total with typed errors -/
 
 /-- an unbalanced bracket is reported, not sliced past (the F7 defect) -/
